@@ -103,6 +103,29 @@ def run_one(e, modes, vals):
     return real, absr
 
 
+def run_again(e, modes, vals, vals2):
+    """the program's Input objects live on (declared once, as module-level declarations do); the expression is evaluated
+    under `vals`, then — with new wrappers around the same Input objects — under `vals2`: the second value is what is
+    returned ((class, value) or ("reject", exception))"""
+    import nada_dsl.audit.abstract as A
+    reset_globals()
+    A.Abstract.initialize(dict(vals))
+    ap = A.Party("p")
+    acls = {"pub": A.PublicInteger, "sec": A.SecretInteger}
+    try:
+        inputs = {n: A.Input(n, ap) for n, m in modes.items() if m != "const"}
+        out = None
+        for vv in (vals, vals2):
+            A.Abstract.initialize(dict(vv))
+            aenv = {n: (A.Integer(vv[n]) if m == "const" else acls[m](inputs[n])) for n, m in modes.items()}
+            a = build(e, aenv, A.Integer)
+            out = ("ok", type(a).__name__, getattr(a, "value", None))
+    except Exception as exc:  # pylint: disable=broad-except
+        out = ("reject", type(exc).__name__)
+    reset_globals()
+    return out
+
+
 def run(res, tier):
     ans = core.driver([{"k": "c15cells"}])[0]
     for cell in ans["cellAgrees"]:
@@ -139,6 +162,17 @@ def run(res, tier):
             want = exact(e, vals)
             if type(absr[2]) is not type(want) or absr[2] != want:
                 text = f"abstract value {absr[2]!r}, exact evaluation {want!r}"
+        if text is None and i % 3 == 0:
+            # a second evaluation of the same program under other input values (the Input objects are the same)
+            vals2 = {nm: (R.big_int(rng) if rng.random() < 0.5 else rng.choice([0, 1, -1, 3])) for nm in names}
+            abs2 = run_again(e, modes, vals, vals2)
+            if abs2[0] == "ok":
+                want2 = exact(e, vals2)
+                if type(abs2[2]) is not type(want2) or abs2[2] != want2:
+                    res.violation({"property": "C15", "kind": "expr-again", "expr": e, "modes": modes, "values": {k: str(v) for k, v in vals.items()},
+                                   "values2": {k: str(v) for k, v in vals2.items()}, "shown": show(e)},
+                                  f"{show(e)} with {modes}: evaluated under {vals} and then under {vals2}: abstract value {abs2[2]!r}, "
+                                  f"exact evaluation of the second inputs {want2!r}"[:400])
         if text:
             res.violation({"property": "C15", "kind": "expr", "expr": e, "modes": modes, "values": {k: str(v) for k, v in vals.items()},
                            "shown": show(e), "text": text}, f"{show(e)} with {modes} {vals}: {text}"[:400])
@@ -162,6 +196,15 @@ def replay(obj):
         print(json.dumps(obj["cell"]))
         ans = core.driver([{"k": "c15cells"}])[0]
         bad = any(c["op"] == obj["cell"]["op"] and c["args"] == obj["cell"]["args"] for c in ans["cellAgrees"])
+    elif obj.get("kind") == "expr-again":
+        def tup(x):
+            return tuple(tup(y) for y in x) if isinstance(x, list) else x
+        e = tup(obj["expr"])
+        vals = {k: int(v) for k, v in obj["values"].items()}
+        vals2 = {k: int(v) for k, v in obj["values2"].items()}
+        abs2 = run_again(e, obj["modes"], vals, vals2)
+        print(abs2, exact(e, vals2))
+        bad = abs2[0] == "ok" and abs2[2] != exact(e, vals2)
     else:
         def tup(x):
             return tuple(tup(y) for y in x) if isinstance(x, list) else x
